@@ -214,6 +214,63 @@ pub fn mutants<B: Backend>(purpose: Purp, tok: &str, msg_len: usize, aad: &[u8],
     out
 }
 
+/// wrong keys that a weak fingerprint of the key (sum / XOR of its words, a prefix, a suffix, a hash of
+/// part of it) cannot tell from the right one
+pub fn related_wrong_keys(raw: &[u8]) -> Vec<(&'static str, Vec<u8>)> {
+    let mut out: Vec<(&'static str, Vec<u8>)> = vec![];
+    let n = raw.len();
+    // 8-byte lanes permuted
+    if n % 8 == 0 && n >= 16 {
+        let lanes = n / 8;
+        for a in 0..lanes {
+            for b in (a + 1)..lanes {
+                let mut k = raw.to_vec();
+                for i in 0..8 {
+                    k.swap(a * 8 + i, b * 8 + i);
+                }
+                out.push(("lanes-swapped", k));
+            }
+        }
+        let mut k = raw.to_vec();
+        k.rotate_left(8);
+        out.push(("lanes-rotated", k));
+        // +1 in one lane, -1 at the same offset of another (sum of the lanes unchanged); same with XOR
+        for off in [0usize, 3, 7] {
+            for (a, b) in [(0usize, 1usize), (0, lanes - 1), (1, 2 % lanes)] {
+                if a == b {
+                    continue;
+                }
+                let mut k = raw.to_vec();
+                k[a * 8 + off] = k[a * 8 + off].wrapping_add(1);
+                k[b * 8 + off] = k[b * 8 + off].wrapping_sub(1);
+                out.push(("lane-sum-preserved", k));
+                let mut k = raw.to_vec();
+                k[a * 8 + off] ^= 0x40;
+                k[b * 8 + off] ^= 0x40;
+                out.push(("lane-xor-preserved", k));
+            }
+        }
+    }
+    let mut k = raw.to_vec();
+    k.reverse();
+    out.push(("reversed", k));
+    let mut k = raw.to_vec();
+    k.rotate_left(1);
+    out.push(("rotated-one-byte", k));
+    let mut k = raw.to_vec();
+    k.swap(0, n - 1);
+    out.push(("ends-swapped", k));
+    let k: Vec<u8> = raw.iter().map(|b| !b).collect();
+    out.push(("complement", k));
+    for i in [0usize, n / 2, n - 2] {
+        let mut k = raw.to_vec();
+        k.swap(i, i + 1);
+        out.push(("adjacent-bytes-swapped", k));
+    }
+    out.retain(|(_, k)| k != raw);
+    out
+}
+
 fn expect_err<B: Backend>(rep: &mut Report, kp: &KeyPair<B>, class: &str, tok: &str, aad: &[u8], what: &str) {
     let p = kp.purpose();
     let label = format!("{}.{}.{class}", B::NAME, p.name());
@@ -309,6 +366,19 @@ fn backend<B: Backend>(opts: &Opts, rep: &mut Report) {
                                     expect_err::<B>(rep, &k2, "one-bit-key", &tok, aad, "key differing in one bit, right after the right key opened the token");
                                 }
                             }
+                            KeyPair::Public(..) => {}
+                        }
+                        if let KeyPair::Local(_) = &kp {
+                            for (how, r2) in related_wrong_keys(&kp.raw().0) {
+                                let k2 = KeyPair::<B>::from_raw(Purp::Local, &r2).unwrap();
+                                if !matches!(guard(|| kp.open(&tok, aad)), Ok(Ok(_))) {
+                                    rep.violation(&format!("C02|{}|local|own-token-rejected-in-sequence", B::NAME), json!({"token": tok}));
+                                }
+                                expect_err::<B>(rep, &k2, "related-key", &tok, aad, how);
+                            }
+                        }
+                        match &kp {
+                            KeyPair::Local(_) => {}
                             KeyPair::Public(..) => {
                                 // related key pairs: secret material differing in one byte from the signer's
                                 let raw = kp.raw().0;
@@ -659,7 +729,7 @@ pub fn run(opts: &Opts) {
     pairs!(V1 => V3Lc, V3Lc => V1, V2 => V4Na, V4Na => V2, V3Lc => V4Na, V4Na => V3Lc, V3 => V4Na, V4 => V3Lc, V3Lc => V4, V4Na => V3, V3Lc => V2, V4Na => V1);
     rep.set(
         "rule",
-        json!("fault enumeration: for sealed tokens (payload 0/1/17/64 B x footer x assertion) every single-bit flip of every body/footer/assertion byte, footer/assertion add/remove/replace/swap and padding with white space, boundary shifts of 1..8 bytes between message, footer and assertion, every truncation, extensions, further dot-separated segments after the footer, doubled tokens and white space / invisible characters around the token (these also through the serde Deserialize entry point), header relabels, other keys, for local keys a one-bit-different key per key byte (public: key pairs of one-bit-different secrets), each tried immediately after the right key has opened the token on the same thread; a case is (mutated token, assertion, key) and is non-trivial when it differs from what was sealed; distinct = distinct such triples"),
+        json!("fault enumeration: for sealed tokens (payload 0/1/17/64 B x footer x assertion) every single-bit flip of every body/footer/assertion byte, footer/assertion add/remove/replace/swap and padding with white space, boundary shifts of 1..8 bytes between message, footer and assertion, every truncation, extensions, further dot-separated segments after the footer, doubled tokens and white space / invisible characters around the token (these also through the serde Deserialize entry point), header relabels, other keys, for local keys a one-bit-different key per key byte and keys related to the right one by lane permutations, sum- and XOR-preserving changes, reversal, rotation, complement (public: key pairs of one-bit-different secrets), each tried immediately after the right key has opened the token on the same thread; a case is (mutated token, assertion, key) and is non-trivial when it differs from what was sealed; distinct = distinct such triples"),
     );
     rep.finish(opts);
 }
